@@ -33,6 +33,7 @@ def run(ctx):
     ctx.guard(rule_c, ctx, ix, hub)
     ctx.guard(rule_d, ctx, ix, hub)
     ctx.guard(rule_e, ctx, ix, hub)
+    ctx.guard(rule_f, ctx, ix)
 
 
 def _mentions_field(node, selfname, field):
@@ -506,3 +507,46 @@ def rule_e(ctx, ix, hub):
            detail='HubCallbackContainer.__setitem__ keeps the stored entry under `%s` - a comparison that does not look at the filter: '
                   'subscribing again with the same handler and another filter (a listener switching to another source) keeps the old '
                   'filter, so messages that should now be delivered are withheld and the others still arrive' % (pc,), where=where(g, sts[0]))
+
+
+def rule_f(ctx, ix):
+    """A subscription holds two weak references with the same clean-up callback: to the object of a bound handler and to the object
+    of a bound filter.  When either object dies the subscription has to go: a filter whose object is gone raises (or rejects)
+    on the next broadcast, before anything is delivered."""
+    R = 'C07.f'
+    ctx.describe(R, 'the clean-up of dead subscriptions looks at every weak reference the container stores with that callback', floor=2)
+    cc = ix.cls('glue.core.hub_callback_container.HubCallbackContainer')
+    w, g = cc.resolve_func('_wrap'), cc.resolve_func('_auto_remove')
+    if w is None or g is None:
+        raise AnalysisError('HubCallbackContainer._wrap / _auto_remove vanished')
+    # positions of the stored tuple that hold weakref.ref(<x>.__self__, self._auto_remove): read off the tuple displays of _wrap
+    pos, base = set(), 0
+    for st in sorted([x for x in walk_no_nested(w.node) if isinstance(x, (ast.Assign, ast.AugAssign)) and isinstance(x.value, ast.Tuple)], key=lambda x: x.lineno):
+        tgt = st.targets[0] if isinstance(st, ast.Assign) else st.target
+        if not isinstance(tgt, ast.Name):
+            continue
+        start = 0 if isinstance(st, ast.Assign) else base
+        for i, e in enumerate(st.value.elts):
+            if isinstance(e, ast.Call) and call_name(e) == 'ref' and len(e.args) == 2 and '_auto_remove' in unparse(e.args[1]):
+                pos.add(start + i)
+        if isinstance(st, ast.AugAssign):
+            base = start + len(st.value.elts) if len(st.value.elts) > 1 else base + len(st.value.elts)
+        else:
+            base = len(st.value.elts)
+    if len(pos) < 2:
+        raise AnalysisError('HubCallbackContainer._wrap: the weak references with the clean-up callback are no longer recognised (%s)' % sorted(pos))
+    p = g.params[1]
+    seen = set()
+    for c in ast.walk(g.node):
+        if isinstance(c, ast.Compare) and len(c.ops) == 1 and isinstance(c.ops[0], (ast.Is, ast.IsNot, ast.Eq, ast.NotEq)):
+            sides = [c.left, c.comparators[0]]
+            if any(isinstance(x, ast.Name) and x.id == p for x in sides):
+                for x in sides:
+                    if isinstance(x, ast.Subscript) and isinstance(x.slice, ast.Constant) and isinstance(x.slice.value, int):
+                        seen.add(x.slice.value)
+    for i in sorted(pos):
+        ctx.ob(R, '%s entry[%d]' % (g.construct, i), 'the dead object is compared with entry[%d] of every subscription' % i, i in seen,
+               detail='HubCallbackContainer._auto_remove never compares the collected object with entry[%d] of the stored subscription, where '
+                      '_wrap keeps a weak reference with this clean-up callback: a subscription whose %s object has been collected stays '
+                      'in the container, and the next broadcast of that message calls a method on None (or keeps calling a dead '
+                      'subscription) before the healthy listeners are served' % (i, 'filter' if i >= 2 else 'handler'), where=g.where)
